@@ -252,7 +252,8 @@ def run_clients(ctx):
                 sc["kwargs"] = {"scope": scope_val}
         else:
             sc.update(placement=rng.choice(["header", "body", "uri"]), access_token=rng.choice(["tok", "t-._~+/=", "with space", "a&b", "café"]),
-                      resource=rng.choice(["https://rs.example/r", "https://rs.example/r?x=1&y=a+b"]), data={"k": "v w"} if rng.random() < 0.5 else None)
+                      resource=rng.choice(["https://rs.example/r", "https://rs.example/r?x=1&y=a+b", "https://rs.example/r#sec",
+                                           "https://rs.example/r?x=1#frag", "https://rs.example", "https://rs.example/a;p"]), data={"k": "v w"} if rng.random() < 0.5 else None)
             if sc["placement"] == "header" and not sc["access_token"].isascii():
                 sc["access_token"] = "tok"
         caps = {}
@@ -332,7 +333,13 @@ def run_clients(ctx):
             else:
                 q = up.parse_qsl(up.urlsplit(req["url"]).query, keep_blank_values=True)
                 old = up.parse_qsl(up.urlsplit(sc["resource"]).query, keep_blank_values=True)
-                ok = q == old + [("access_token", tok)]
+                # requests/httpx drop the fragment before sending; the token must be in the query as the server reads it
+                ok = q == old + [("access_token", tok)] and OAuth2Request("GET", req["url"]).args.get("access_token") == tok
+                from authlib.oauth2.rfc6750 import add_bearer_token
+                direct = add_bearer_token(tok, sc["resource"], {}, None, "uri")[0]
+                ctx.compare("bearer_uri", case, direct, m.call("add_params_to_uri", {"uri": sc["resource"], "params": pairs_wire([("access_token", tok)]), "fragment": False}))
+                a, c2 = up.urlsplit(sc["resource"]), up.urlsplit(direct)
+                ok = ok and (a.scheme, a.netloc, a.path, a.fragment) == (c2.scheme, c2.netloc, c2.path, c2.fragment)
             if not ok:
                 ctx.violation("C15:protected:token-not-recovered:%s" % sc["placement"], "bearer token is not recovered unchanged", dict(case, request=req))
 
